@@ -254,13 +254,25 @@ def _judge_file(rel, nf_in, out_css, coloured, cards, listed, mode, premium, dbg
 
     dbg_vars = set(_re.findall(r"var\(\s*(--[^\s,)]+)", dbg)) if dbg and "var(" in dbg else set()
 
+    def through_shared(vn):
+        # the referenced property, or any property its definition aliases (--link: var(--base)), is shared: the rule then
+        # reads its colour through a definition that the tool rewrites in place for another rule
+        seen = set()
+        while vn and vn[0] not in seen:
+            if vn[0] in shared:
+                return True
+            seen.add(vn[0])
+            d = props_in.get(vn[0])
+            vn = osh.var_name_of(d) if d is not None else None
+        return False
+
     def tag(rule):
         cd = osh.last_decl(rule, "color")
         vn = osh.var_name_of(cd[2]) if cd else None
         bd = osh.last_decl(rule, "background-color")
         bn = osh.var_name_of(bd[2]) if bd else None
         via_default = bd is None and bool(dbg_vars & shared)  # the rule's background is the option, which references a shared property
-        return ":shared-var" if (vn and vn[0] in shared) or (bn and bn[0] in shared) or via_default else ""
+        return ":shared-var" if through_shared(vn) or through_shared(bn) or via_default else ""
 
     A = ids_from_selectors([c["selector"] for c in cards], coloured)
     F = ids_from_selectors(listed, coloured)
